@@ -610,23 +610,27 @@ theorem iterDictStep_inv {n : Nat} {nameLen : Nat} {slots : Option String × Opt
     (h : iterDictStep n nameLen slots body target k s = (r, s')) :
     (∃ vals ord v, s.heap[target]? = some (.hm vals ord) ∧ lookup k vals = some v ∧
       iterPass n nameLen slots body s.heap.size v (pushCell (.str k) s) = (r, s')) ∨
+    (∃ vals ord, s.heap[target]? = some (.hm vals ord) ∧ lookup k vals = none ∧ r = .ok false ∧ s' = s) ∨
     (resIsOk r = false ∧ resIsSig r = false) := by
   unfold iterDictStep at h
   rcases getCell_bind_inv h with ⟨cell, hcell, h1⟩ | ⟨rfl, rfl⟩
   · cases cell <;> first
-      | (cases h1; exact .inr ⟨rfl, rfl⟩)
+      | (cases h1; exact .inr (.inr ⟨rfl, rfl⟩))
       | skip
     rename_i vals ord
     simp only at h1
     cases hl : lookup k vals with
-    | none => rw [hl] at h1; cases h1; exact .inr ⟨rfl, rfl⟩
+    | none =>
+      rw [hl] at h1
+      obtain ⟨rfl, rfl⟩ := pure_inv h1
+      exact .inr (.inl ⟨vals, ord, hcell, hl, rfl, rfl⟩)
     | some v =>
       rw [hl] at h1
       simp only at h1
       have hstr : newStr k s = (.ok s.heap.size, pushCell (.str k) s) := rfl
       rw [bind_ok hstr] at h1
       exact .inl ⟨vals, ord, v, hcell, hl, h1⟩
-  · exact .inr ⟨rfl, rfl⟩
+  · exact .inr (.inr ⟨rfl, rfl⟩)
 
 theorem untilM_post {n : Nat} (hB : BlockC ν n) (nameLen : Nat) (slots : Option String × Option String)
     (body : Option (List Stmt)) (target : Addr) :
@@ -649,7 +653,7 @@ theorem untilM_post {n : Nat} (hB : BlockC ν n) (nameLen : Nat) (slots : Option
     intro s s' r h0 h
     simp only [untilM] at h
     rcases bind_inv h with ⟨b, s1, hstep, h1⟩ | ⟨rb, hstep, -, hnok, hsig⟩
-    · rcases iterDictStep_inv hstep with ⟨vals, ord, v, hcell, hl, hpass⟩ | ⟨hnok, -⟩
+    · rcases iterDictStep_inv hstep with ⟨vals, ord, v, hcell, hl, hpass⟩ | ⟨vals, ord, hcell, hl, hb, hs1⟩ | ⟨hnok, -⟩
       · obtain ⟨q1, q2, -⟩ := iterPass_post hB (s := pushCell (.str k) s) h0 hpass
         cases b with
         | true =>
@@ -666,11 +670,21 @@ theorem untilM_post {n : Nat} (hB : BlockC ν n) (nameLen : Nat) (slots : Option
           obtain ⟨pre, k', post, s3, vals', ord', v', s4, sr, rfl, hp, hcell', hl', hbind', hpath⟩ := p1 hok rv hrv
           exact ⟨k :: pre, k', post, s3, vals', ord', v', s4, sr, rfl, .cons hcell hl hbind hb hv hp,
             hcell', hl', hbind', hpath⟩
+      · -- the key was removed by an earlier pass: skipped, the machine is unchanged
+        cases hb
+        rw [hs1] at h1
+        simp only [Bool.false_eq_true, if_false] at h1
+        obtain ⟨p1, p2⟩ := ih s s' r h0 h1
+        refine ⟨fun hok rv hrv => ?_, p2⟩
+        obtain ⟨pre, k', post, s3, vals', ord', v', s4, sr, rfl, hp, hcell', hl', hbind', hpath⟩ := p1 hok rv hrv
+        exact ⟨k :: pre, k', post, s3, vals', ord', v', s4, sr, rfl, .skip hcell hl hp,
+          hcell', hl', hbind', hpath⟩
       · cases hnok
     · refine ⟨fun hok => (by rw [hnok] at hok; cases hok), ?_⟩
       rw [hsig]
-      rcases iterDictStep_inv hstep with ⟨vals, ord, v, hcell, hl, hpass⟩ | ⟨-, hns⟩
+      rcases iterDictStep_inv hstep with ⟨vals, ord, v, hcell, hl, hpass⟩ | ⟨vals, ord, -, -, hb, -⟩ | ⟨-, hns⟩
       · exact (iterPass_post hB (s := pushCell (.str k) s) h0 hpass).2.2
+      · rw [hb]; rfl
       · exact hns
 
 theorem iterate_post {n : Nat} (hB : BlockC ν n) (ln : Nat) (e : Expr) (names : List Ident)
